@@ -15,6 +15,7 @@ import (
 	"io"
 	"net"
 	"net/netip"
+	"net/url"
 	"regexp"
 	"sort"
 	"strconv"
@@ -25,6 +26,7 @@ import (
 
 	"github.com/daeuniverse/dae/common/assets"
 	"github.com/daeuniverse/dae/common/consts"
+	"github.com/daeuniverse/dae/common/netutils"
 	componentdns "github.com/daeuniverse/dae/component/dns"
 	"github.com/daeuniverse/dae/config"
 	"github.com/daeuniverse/dae/pkg/config_parser"
@@ -54,7 +56,9 @@ type c07Step struct {
 	Resp   *c07Routing           `json:"resp"`
 }
 type c07CtlCase struct {
-	Ups   []string   `json:"ups"`
+	Ups     []string          `json:"ups"`
+	Urls    []string          `json:"urls"`    // upstream URL per tag (default: udp://10.0.x.y:53, all different addresses)
+	Resolve map[string]string `json:"resolve"` // host name -> address for upstream hosts that are not IP literals
 	Req   c07Routing `json:"req"`
 	Resp  c07Routing `json:"resp"`
 	Steps []c07Step  `json:"steps"`
@@ -69,11 +73,22 @@ type c07StepRes struct {
 	Out   string          `json:"out"` // reply | error | none
 	Err   string          `json:"err,omitempty"`
 	Ans   []string        `json:"ans"`
-	Asked []int           `json:"asked"` // source codes
+	Asked []int           `json:"asked"` // source codes of the upstreams handed to BestDialerChooser (the chosen ones)
+	Built []int           `json:"built"` // source codes of the upstreams the forwarders that carried the queries were created for
 	Cache []c07CacheEntry `json:"cache"`
 	Hits  []string        `json:"hits"`
 }
+type c07Ident struct {
+	Code   int    `json:"code"`
+	Scheme string `json:"scheme"`
+	Host   string `json:"host"`
+	Port   uint16 `json:"port"`
+	Path   string `json:"path"`
+	L4     int    `json:"l4"` // 1 tcp, 2 udp: what the harness's chooser answers for this upstream
+	Ip     string `json:"ip"`
+}
 type c07CtlResult struct {
+	Ids    []c07Ident        `json:"ids"`
 	NewErr string            `json:"new_err,omitempty"`
 	Panic  string            `json:"panic,omitempty"`
 	Scopes map[string]string `json:"scopes"` // cache-key scope text -> source code
@@ -96,17 +111,40 @@ func c07Rules(rs []c07Rule) []*config_parser.RoutingRule {
 	return out
 }
 
-func c07NewRouting(log *logrus.Logger, ups []string, req, resp *c07Routing) (*componentdns.Dns, error) {
+func c07Url(cs *c07CtlCase, i int) string {
+	if i < len(cs.Urls) && cs.Urls[i] != "" {
+		return cs.Urls[i]
+	}
+	return fmt.Sprintf("udp://10.0.%d.%d:53", i/250, 1+i%250)
+}
+
+func c07L4(scheme componentdns.UpstreamScheme) int {
+	switch scheme {
+	case componentdns.UpstreamScheme_UDP, componentdns.UpstreamScheme_QUIC, componentdns.UpstreamScheme_H3, componentdns.UpstreamScheme_TCP_UDP:
+		return 2
+	}
+	return 1
+}
+
+func c07NewRouting(log *logrus.Logger, cs *c07CtlCase, req, resp *c07Routing) (*componentdns.Dns, error) {
 	conf := &config.Dns{}
-	for i, tag := range ups {
-		conf.Upstream = append(conf.Upstream, config.KeyableString(fmt.Sprintf("%s:udp://10.0.%d.%d:53", tag, i/250, 1+i%250)))
+	for i, tag := range cs.Ups {
+		conf.Upstream = append(conf.Upstream, config.KeyableString(tag+":"+c07Url(cs, i)))
 	}
 	conf.Routing.Request.Rules = c07Rules(req.Rules)
 	conf.Routing.Request.Fallback = req.Fallback
 	conf.Routing.Response.Rules = c07Rules(resp.Rules)
 	conf.Routing.Response.Fallback = resp.Fallback
 	return componentdns.New(conf, &componentdns.NewOption{Logger: log, LocationFinder: assets.NewLocationFinder(nil),
-		UpstreamReadyCallback: func(*componentdns.Upstream) error { return nil }})
+		UpstreamReadyCallback: func(*componentdns.Upstream) error { return nil },
+		UpstreamHostResolver: func(ctx context.Context, host string, network string) (*netutils.Ip46, error, error) {
+			ip, ok := cs.Resolve[host]
+			if !ok {
+				e := fmt.Errorf("c07: no address scripted for %q", host)
+				return nil, e, e
+			}
+			return &netutils.Ip46{Ip4: netip.MustParseAddr(ip)}, nil, fmt.Errorf("c07: no AAAA")
+		}})
 }
 
 func c07RRs(rrs []dnsmessage.RR) []string {
@@ -154,7 +192,8 @@ type c07Forwarder struct {
 type c07State struct {
 	mu     sync.Mutex
 	script map[string][][]string
-	asked  []int
+	asked  []int // built-for code of the forwarder used, per query (also indexes the script)
+	chosen []int // code of the upstream handed to BestDialerChooser, per query
 }
 
 func (f *c07Forwarder) Close() error { return nil }
@@ -223,7 +262,7 @@ func c07RunCtl(cs *c07CtlCase) (res c07CtlResult) {
 	log := logrus.New()
 	log.SetOutput(io.Discard)
 	log.SetLevel(logrus.PanicLevel)
-	routing, err := c07NewRouting(log, cs.Ups, &cs.Req, &cs.Resp)
+	routing, err := c07NewRouting(log, cs, &cs.Req, &cs.Resp)
 	if err != nil {
 		res.NewErr = err.Error()
 		return res
@@ -234,11 +273,31 @@ func c07RunCtl(cs *c07CtlCase) (res c07CtlResult) {
 	res.Scopes = map[string]string{"asis@" + realDst.String(): "253"}
 	codeOf := map[string]int{}
 	for i := range cs.Ups {
-		s := fmt.Sprintf("udp://10.0.%d.%d:53", i/250, 1+i%250)
+		u, perr := url.Parse(c07Url(cs, i))
+		if perr != nil {
+			res.Panic = "HARNESS: bad upstream url: " + perr.Error()
+			return res
+		}
+		scheme, host, port, path, perr := componentdns.ParseRawUpstream(u)
+		if perr != nil {
+			res.Panic = "HARNESS: bad upstream url: " + perr.Error()
+			return res
+		}
+		s := string(scheme) + "://" + net.JoinHostPort(host, strconv.Itoa(int(port))) + path
+		if _, dup := codeOf[s]; dup {
+			res.Panic = "HARNESS: two upstreams with the same identity " + s
+			return res
+		}
 		codeOf[s] = i
 		res.Scopes["upstream@"+s] = strconv.Itoa(i)
+		ip := host
+		if r, ok := cs.Resolve[host]; ok {
+			ip = r
+		}
+		res.Ids = append(res.Ids, c07Ident{Code: i, Scheme: string(scheme), Host: host, Port: port, Path: path, L4: c07L4(scheme), Ip: ip})
 	}
 	codeOf["udp://"+realDst.String()] = 253
+	res.Ids = append(res.Ids, c07Ident{Code: 253, Scheme: "udp", Host: realDst.Addr().String(), Port: realDst.Port(), Path: "", L4: 2, Ip: realDst.Addr().String()})
 
 	original := dnsForwarderFactory
 	defer func() { dnsForwarderFactory = original }()
@@ -257,12 +316,24 @@ func c07RunCtl(cs *c07CtlCase) (res c07CtlResult) {
 		NewCache: func(fqdn string, answers, ns, extra []dnsmessage.RR, deadline, originalDeadline time.Time) (*DnsCache, error) {
 			return &DnsCache{Answer: answers, NS: ns, Extra: extra, Deadline: deadline, OriginalDeadline: originalDeadline}, nil
 		},
+		// same shape as the production chooser: the target is the upstream's resolved ip:port, the transport follows the scheme
 		BestDialerChooser: func(ctx context.Context, req *udpRequest, upstream *componentdns.Upstream) (*dialArgument, error) {
 			t := realDst
 			if upstream != nil && upstream.Ip46 != nil && upstream.Ip4.IsValid() {
 				t = netip.AddrPortFrom(upstream.Ip4, upstream.Port)
 			}
-			return &dialArgument{l4proto: consts.L4ProtoStr_UDP, ipversion: consts.IpVersionStr_4, bestTarget: t}, nil
+			code, ok := codeOf[upstream.String()]
+			if !ok {
+				code = -1
+			}
+			st.mu.Lock()
+			st.chosen = append(st.chosen, code)
+			st.mu.Unlock()
+			l4 := consts.L4ProtoStr_TCP
+			if c07L4(upstream.Scheme) == 2 {
+				l4 = consts.L4ProtoStr_UDP
+			}
+			return &dialArgument{l4proto: l4, ipversion: consts.IpVersionStr_4, bestTarget: t}, nil
 		},
 		TimeoutExceedCallback: func(*dialArgument, error) {},
 	}
@@ -275,7 +346,7 @@ func c07RunCtl(cs *c07CtlCase) (res c07CtlResult) {
 	req := &udpRequest{realSrc: netip.MustParseAddrPort("192.0.2.10:41000"), realDst: realDst, routingResult: &bpfRoutingResult{}}
 	for si, step := range cs.Steps {
 		if step.Kind == "reload" {
-			nr, err := c07NewRouting(log, cs.Ups, step.Req, step.Resp)
+			nr, err := c07NewRouting(log, cs, step.Req, step.Resp)
 			if err != nil {
 				res.Panic = fmt.Sprintf("HARNESS: reload routing of step %d rejected: %v", si, err)
 				return res
@@ -287,6 +358,7 @@ func c07RunCtl(cs *c07CtlCase) (res c07CtlResult) {
 		st.mu.Lock()
 		st.script = step.Script
 		st.asked = nil
+		st.chosen = nil
 		st.mu.Unlock()
 		q := &dnsmessage.Msg{}
 		q.Id = uint16(1000 + si)
@@ -322,7 +394,8 @@ func c07RunCtl(cs *c07CtlCase) (res c07CtlResult) {
 			sr.Out = "none"
 		}
 		st.mu.Lock()
-		sr.Asked = append([]int{}, st.asked...)
+		sr.Built = append([]int{}, st.asked...)
+		sr.Asked = append([]int{}, st.chosen...)
 		st.mu.Unlock()
 		ctrl.dnsCache.Range(func(k, v any) bool {
 			sr.Cache = append(sr.Cache, c07CacheEntry{Key: k.(string), Ans: c07RRs(v.(*DnsCache).Answer)})
